@@ -25,7 +25,7 @@ using namespace verif;
 namespace {
 struct CountSink {
 	size_t n = 0; uint32_t h = 0;
-	void append(char c) { n++; h = h * 31 + (unsigned char)c; if(n > (size_t(1) << 18)) throw Discard{"output longer than 256 KiB"}; }
+	void append(char c) { n++; h = h * 31 + (unsigned char)c; if(n > (size_t(1) << 16)) throw Discard{"output longer than 64 KiB"}; }
 	void append(const char *s) { while(*s) append(*s++); }
 	void append(const char *s, size_t k) { for(size_t i = 0; i < k; i++) append(s[i]); }
 };
@@ -248,17 +248,18 @@ void verif_enum(Enum &e) {
 	for(uint32_t ty = 0; ty < 6; ty++) if(!all(3 + 4 * ty, "09a", 6, "to_number: all strings over \"09a\" up to length 6")) return;
 	// long digit strings (overflow of every target type)
 	uint64_t count = 0;
-	for(uint32_t ty = 0; ty < 6; ty++) for(char d : {'1', '9'}) for(unsigned len = 1; len <= 40; len++) {
+	for(uint32_t ty = 0; ty < 6; ty++) for(char d : {'1', '9'}) for(unsigned len : {1u, 2u, 3u, 4u, 5u, 6u, 8u, 9u, 10u, 11u, 12u, 18u, 19u, 20u, 21u, 22u, 40u}) {
 		std::vector<uint32_t> tape{3 + 4 * ty}; for(unsigned i = 0; i < len; i++) tape.push_back(d);
 		if(!e.run(tape)) return; count++;
 		std::vector<uint32_t> t2{0, '%'}; for(unsigned i = 0; i < len; i++) t2.push_back(d); t2.push_back('d');      // printf width
 		if(!e.run(t2)) return; count++;
 		std::vector<uint32_t> t3{0, '%', '.'}; for(unsigned i = 0; i < len; i++) t3.push_back(d); t3.push_back('d');  // printf precision
-		if(!e.run(t3)) return; count++;
+		// (a precision of 10^7..10^10 makes print_digits count that far before it prints: seconds per case, no new behaviour)
+		if(len <= 6 || len >= 11) { if(!e.run(t3)) return; count++; }
 		std::vector<uint32_t> t4{1, '{', ':'}; for(unsigned i = 0; i < len; i++) t4.push_back(d); t4.push_back('}');  // fmt width
 		if(!e.run(t4)) return; count++;
 		std::vector<uint32_t> t5{2, '1', '='}; for(unsigned i = 0; i < len; i++) t5.push_back(d);                      // cmdline number
 		if(!e.run(t5)) return; count++;
 	}
-	e.scope("digit runs of length 1..40 as to_number input, printf width/precision, fmt width, cmdline number", count);
+	e.scope("digit runs of 17 lengths between 1 and 40 as to_number input, printf width/precision, fmt width, cmdline number", count);
 }
